@@ -28,7 +28,10 @@
 
     * `fault_safe_partial`   histories of operations whose finding class is repaired in `c` and that are not the static_array
                              move constructor satisfy the full statement
-    * `fault_safe_fixed`     for the tree with F6, F7, F8 in: every history without the static_array move constructor does
+    * `fault_safe_fixed`     for the tree with F6, F7, F8 in: every history without the static_array move constructor does —
+                             this includes the element-wise move path of fixes/F9.patch (move assignment / allocator-extended
+                             move construction between unequal allocators): a throwing element move or a failing allocation
+                             there leaves both arrays valid and nothing leaked
     * `fault_step`           the single-operation form: from a good state, with any amount of fuel
     * `no_alloc_when_not_needed`  swap, move construction / assignment, clear, the destructor, reshape, assignment through
                              views, and copy assignment / assign / reextent to the SAME extents record no allocation
@@ -177,19 +180,24 @@ example : badEnd (runHist cfgAll [.ctorFill 0 1 [⟨0, 2⟩], .reextent 0 [⟨0,
 
 /-! ### operations that need no new storage do not allocate -/
 
-/-- no allocation, whatever the outcome: swap, move assignment, move construction (plain and allocator-extended), clear,
-    the destructor, reshape, assignment through views; and, at states where the extents agree, copy assignment,
+/-- no allocation, whatever the outcome: swap, move construction, clear, the destructor, reshape, assignment through views;
+    move assignment and allocator-extended move construction whenever the storage may change hands (equal allocators, or
+    POCMA for the assignment — between unequal allocators the repaired code must obtain new storage, as the standard
+    containers do); and, at states where the extents agree (and POCCA does not force a change of storage), copy assignment,
     `assign(extensions, value)` and the three `reextent` overloads -/
 theorem no_alloc_when_not_needed (c : Cfg) :
     (∀ i j, NoAlloc ((Op.swap i j).run c)) ∧
-    (∀ i j, NoAlloc ((Op.assignMove i j).run c)) ∧
+    (∀ i j s x y, getArr s i = some x → getArr s j = some y → (c.fx9a && !c.pocma && !c.eqv x.alloc y.alloc) = false →
+      evCount Event.isAlloc ((Op.assignMove i j).run c s).state.log = evCount Event.isAlloc s.log) ∧
     (∀ i j, NoAlloc ((Op.ctorMove i j).run c)) ∧
-    (∀ i j a, NoAlloc ((Op.ctorMoveA i j a).run c)) ∧
+    (∀ i j a s y, getArr s j = some y → (c.fx9a && !c.eqv a y.alloc) = false →
+      evCount Event.isAlloc ((Op.ctorMoveA i j a).run c s).state.log = evCount Event.isAlloc s.log) ∧
     (∀ i, NoAlloc ((Op.clear i).run c)) ∧
     (∀ i, NoAlloc ((Op.dtor i).run c)) ∧
     (∀ i es, NoAlloc ((Op.reshape i es).run c)) ∧
     (∀ i j, NoAlloc ((Op.viewAssign i j).run c)) ∧
     (∀ i j s x y, getArr s i = some x → getArr s j = some y → extsEq x.ext y.ext = true →
+      (c.fx9c && c.pocca && !c.eqv x.alloc y.alloc) = false →
       evCount Event.isAlloc ((Op.assignCopy i j).run c s).state.log = evCount Event.isAlloc s.log) ∧
     (∀ i es s x, getArr s i = some x → extsEq x.ext es = true →
       evCount Event.isAlloc ((Op.assignFill i es).run c s).state.log = evCount Event.isAlloc s.log ∧
@@ -208,34 +216,38 @@ theorem no_alloc_when_not_needed (c : Cfg) :
       cases getArr s j with
       | none => exact NoEv.ub
       | some y => exact NoEv.ite (NoEv.pure ()) (NoEv.bind (NoEv.setSlot _ _) (fun _ => NoEv.setSlot _ _))
-  · intro i j
-    show NoAlloc (opAssignMove c i j)
+  · intro i j s x y hx hy hcond
+    show evCount Event.isAlloc (opAssignMove c i j s).state.log = _
     unfold opAssignMove
-    apply NoEv.bind NoEv.get; intro s
-    cases getArr s i with
-    | none => exact NoEv.ub
-    | some x =>
-      cases getArr s j with
-      | none => exact NoEv.ub
-      | some y =>
-        apply NoEv.ite (NoEv.pure ())
-        apply NoEv.noexcept
-        unfold moveAssignFrom
-        exact NoEv.bind (NoEv.bind (NoEv.clearArr hq c i x) (fun _ => NoEv.setSlot _ _)) (fun _ => NoEv.setSlot _ _)
+    rw [get_bind]
+    simp only [hx, hy, hcond, Bool.false_eq_true, if_false]
+    have : NoAlloc (if i = j then (pure () : M Unit) else noexcept do
+        moveAssignFrom c i x y.alloc y.base y.ext y.n
+        setSlot j (some { y with ext := emptyExts c.dim, n := 0 })) := by
+      apply NoEv.ite (NoEv.pure ())
+      apply NoEv.noexcept
+      unfold moveAssignFrom
+      exact NoEv.bind (NoEv.bind (NoEv.clearArr hq c i x) (fun _ => NoEv.setSlot _ _)) (fun _ => NoEv.setSlot _ _)
+    exact this s
   · intro i j
     show NoAlloc (opCtorMove c i j none)
     unfold opCtorMove
     apply NoEv.bind NoEv.get; intro s
     cases getArr s j with
     | none => exact NoEv.ub
-    | some y => exact NoEv.bind (NoEv.setSlot _ _) (fun _ => NoEv.setSlot _ _)
-  · intro i j a
-    show NoAlloc (opCtorMove c i j (some a))
+    | some y =>
+      have hc : (c.fx9a && !c.eqv (pickAlloc none y.alloc) y.alloc) = false := by
+        have : c.eqv (pickAlloc none y.alloc) y.alloc = true := eqv_refl c _
+        simp [this]
+      simp only [hc, Bool.false_eq_true, if_false]
+      exact NoEv.bind (NoEv.setSlot _ _) (fun _ => NoEv.setSlot _ _)
+  · intro i j a s y hy hcond
+    show evCount Event.isAlloc (opCtorMove c i j (some a) s).state.log = _
     unfold opCtorMove
-    apply NoEv.bind NoEv.get; intro s
-    cases getArr s j with
-    | none => exact NoEv.ub
-    | some y => exact NoEv.bind (NoEv.setSlot _ _) (fun _ => NoEv.setSlot _ _)
+    rw [get_bind]
+    have hc : (c.fx9a && !c.eqv (pickAlloc (some a) y.alloc) y.alloc) = false := hcond
+    simp only [hy, hc, Bool.false_eq_true, if_false]
+    exact (NoEv.bind (NoEv.setSlot _ _) (fun _ => NoEv.setSlot _ _) : NoAlloc _) s
   · intro i
     show NoAlloc (opClear c i)
     unfold opClear
@@ -267,11 +279,11 @@ theorem no_alloc_when_not_needed (c : Cfg) :
       cases getArr s j with
       | none => exact NoEv.ub
       | some y => exact NoEv.bind (NoEv.readCells c _ _) (fun _ => NoEv.assignAll hq c _ _)
-  · intro i j s x y hx hy hsame
+  · intro i j s x y hx hy hsame hkeep
     show evCount Event.isAlloc (opAssignCopy c i j s).state.log = _
     unfold opAssignCopy
     rw [get_bind]
-    simp only [hx, hy, hsame, if_true]
+    simp only [hx, hy, hsame, hkeep, Bool.not_false, Bool.and_self, if_true]
     have : NoAlloc (if i = j then (pure () : M Unit) else do
         setSlot i (some (if c.pocca = true then { x with alloc := y.alloc } else x))
         readCells c y.base y.n
@@ -300,6 +312,23 @@ theorem no_alloc_when_not_needed (c : Cfg) :
       rw [get_bind]
       simp only [hx, hsame, if_true]
       rfl
+
+/-! ### the element-wise move path of fixes/F9.patch under failures -/
+
+/-- every repair in, allocators 1 and 2 unequal and not propagating -/
+def cfgFull : Cfg := { cfgAll with fx9a := true, fx9c := true }
+
+/-- `B = std::move(A)` between unequal allocators with the second element move throwing (k = 5: steps 0-2 build `A`,
+    3 allocates the new storage, 4 moves element 0, 5 throws): the exception reaches the caller, the new block has been
+    returned, `A` still owns its two (valid, partly moved-from) elements, `B` is unchanged — and `fault_safe_fixed` says so for
+    every history and every k -/
+example : ((runHist cfgFull [.ctorFill 0 1 [⟨0, 2⟩], .ctorDefault 1 2, .assignMove 1 0] (initSt 4 (some 5))).map fun s =>
+    (s.blocks.map (·.freed), s.arrs.map (·.map (·.n)), s.fired)) =
+    some ([false, true], [some 2, some 0, none, none], some Step.ctor) := by decide +kernel
+example : badEnd (runHist cfgFull [.ctorFill 0 1 [⟨0, 2⟩], .ctorDefault 1 2, .assignMove 1 0, .dtor 0, .dtor 1] (initSt 4 (some 5))) = false := by
+  decide +kernel
+
+example : cfgFull.Fixed := ⟨rfl, rfl, rfl⟩
 
 /-! ### non-vacuity -/
 
